@@ -27,9 +27,14 @@ def showRes : Res → String
 
 def sortNats (l : List Nat) : List Nat := l.mergeSort (· ≤ ·)
 
-def putStep (o : OpLine) : String :=
-  match o.name with
-  | "save" =>
+/-- thread picks of the forced interleavings of op `ecrace`: the part threads of a rule move in lock-step
+(every thread performs its k-th critical section before any performs its (k+1)-th) -/
+def putLockstepPicks (ecs : List (Nat × Nat)) (lists : List (List Nat)) (nrep rule : Nat) : List Nat :=
+  let dp := ecs.getD rule (0, 0)
+  let n := (lists.getD (nrep + rule) []).length
+  (List.replicate (2 * n + 2) (List.range (dp.1 + dp.2))).flatten
+
+def putSaveStep (o : OpLine) (lockstep : Bool) : String :=
     match o.nat? "typ", o.nats? "rep", o.nats? "ec", o.nats? "lists", o.nat? "local", o.nat? "signer", o.nats? "part" with
     | some typ, some rep, some ec, some lists, some loc, some signer, some part =>
       match o.nat? "init", o.nats? "lim", o.nat? "max", o.nat? "pl", o.nats? "fail", o.nat? "sched" with
@@ -43,12 +48,22 @@ def putStep (o : OpLine) : String :=
         let ecs : List (Nat × Nat) := ec.map fun e => (e / 100, e % 100)
         let locN : Option Nat := if loc = 0 then none else some loc
         let req : Req := Req.mk typ rep ecs ls locN (signer == 1) ecPart ini'
-        let (s, res) := saveObject (fun _ n => !fail.contains n) (groupSched seed) (ecPicks seed) req
+        let picks := if lockstep then putLockstepPicks ecs ls rep.length else ecPicks seed
+        let (s, res) := saveObject (fun _ n => !fail.contains n) (groupSched seed) picks req
         if res == .panic then "=> panic" else
         let base := s!"=> {showRes res} asked={showNats (sortNats s.g.asked)} acks={showNats (sortNats s.g.acks)}"
         if res == .ok then base ++ s!" ec={showNats (sortNats s.applied)}" else base
       | _, _, _, _, _, _ => "=> bad-op"
     | _, _, _, _, _, _, _ => "=> bad-op"
+
+def putStep (o : OpLine) : String :=
+  match o.name with
+  | "save" => putSaveStep o false
+  | "ecrace" =>
+    -- the same case run under forced interleavings of the EC part routines, `trials` times: one verdict
+    match o.nat? "trials" with
+    | some t => if t < 1 || t > 1000 then "=> bad-op" else putSaveStep o true
+    | none => "=> bad-op"
   | _ => "=> bad-op"
 
 end NeoFS.Driver
